@@ -1,0 +1,132 @@
+package db
+
+import (
+	"math"
+	"strconv"
+	"strings"
+)
+
+// Column affinities, see https://sqlite.org/datatype3.html#determination_of_column_affinity
+type affinity int
+
+const (
+	affBlob affinity = iota
+	affText
+	affNumeric
+	affInteger
+	affReal
+)
+
+// columnAffinity gives the affinity of a column with the declared type `typ`.
+func columnAffinity(typ string) affinity {
+	t := strings.ToUpper(typ)
+	switch {
+	case strings.Contains(t, "INT"):
+		return affInteger
+	case strings.Contains(t, "CHAR"), strings.Contains(t, "CLOB"), strings.Contains(t, "TEXT"):
+		return affText
+	case t == "" || strings.Contains(t, "BLOB"):
+		return affBlob
+	case strings.Contains(t, "REAL"), strings.Contains(t, "FLOA"), strings.Contains(t, "DOUB"):
+		return affReal
+	}
+	return affNumeric
+}
+
+// defaultWithAffinity gives the value SQLite uses for a column with the
+// declared type `typ` in rows which were written before the column existed:
+// the DEFAULT with the column affinity applied.
+func defaultWithAffinity(typ string, def interface{}) interface{} {
+	aff := columnAffinity(typ)
+	switch v := def.(type) {
+	case int64:
+		switch aff {
+		case affText:
+			return strconv.FormatInt(v, 10)
+		case affReal:
+			return float64(v)
+		}
+	case string:
+		switch aff {
+		case affNumeric, affInteger, affReal:
+			n, ok := textToNumber(v)
+			if !ok {
+				return v
+			}
+			if i, ok := n.(int64); ok && aff == affReal {
+				return float64(i)
+			}
+			return n
+		}
+	}
+	return def
+}
+
+func isSpace(c byte) bool {
+	return c == ' ' || (c >= '\t' && c <= '\r')
+}
+
+// textToNumber converts a text which is a well formed integer or real
+// literal, with optional surrounding whitespace, to an int64 when that is
+// exact, or to a float64 otherwise.
+func textToNumber(s string) (interface{}, bool) {
+	for len(s) > 0 && isSpace(s[0]) {
+		s = s[1:]
+	}
+	for len(s) > 0 && isSpace(s[len(s)-1]) {
+		s = s[:len(s)-1]
+	}
+	i, digits, pureInt := 0, 0, true
+	if i < len(s) && (s[i] == '+' || s[i] == '-') {
+		i++
+	}
+	for i < len(s) && s[i] >= '0' && s[i] <= '9' {
+		i++
+		digits++
+	}
+	if i < len(s) && s[i] == '.' {
+		pureInt = false
+		i++
+		for i < len(s) && s[i] >= '0' && s[i] <= '9' {
+			i++
+			digits++
+		}
+	}
+	if digits == 0 {
+		return nil, false
+	}
+	if i < len(s) && (s[i] == 'e' || s[i] == 'E') {
+		pureInt = false
+		i++
+		if i < len(s) && (s[i] == '+' || s[i] == '-') {
+			i++
+		}
+		e := 0
+		for i < len(s) && s[i] >= '0' && s[i] <= '9' {
+			i++
+			e++
+		}
+		if e == 0 {
+			return nil, false
+		}
+	}
+	if i != len(s) {
+		return nil, false
+	}
+	if pureInt {
+		if n, err := strconv.ParseInt(s, 10, 64); err == nil {
+			return n, true
+		}
+	}
+	f, err := strconv.ParseFloat(s, 64)
+	if err != nil && !math.IsInf(f, 0) {
+		return nil, false
+	}
+	// a real without fractional part is stored as an integer
+	if f > -9223372036854775808.0 && f < 9223372036854775808.0 {
+		if n := int64(f); float64(n) == f && n > math.MinInt64 && n < math.MaxInt64 {
+			return n, true
+		}
+	}
+	return f, true
+}
